@@ -631,6 +631,336 @@ def multi_twist(ctx):
                 c.near('pole-sequence', c.call('pole-sequence', lambda: Y.pole()), np.array([r.pole(), r2.pole()]), 4.0)
 
 
+# ------------------------------------------------------------------------------------------------
+# accessors over every kind of twist (revolute, prismatic, general screw, zero, non-unit multiples), single and multi-valued
+# ------------------------------------------------------------------------------------------------
+def twist_kinds(rng):
+    """(kind, 6-vector, expected) for one random axis / point / pitch / factor; expected values are computed independently"""
+    w = rand_unit(rng)
+    q = gen_point(rng)
+    q = q if np.linalg.norm(q) < 50 else q / np.linalg.norm(q) * 50
+    d = rand_unit(rng)
+    h = float(rng.choice([-1, 1]) * rng.uniform(0.1, 3))
+    k = float(rng.choice([-1, 1]) * rng.uniform(0.2, 5))
+    v_rev = -np.cross(w, q)
+    kinds = [
+        ('revolute', np.r_[v_rev, w], dict(theta=1.0, pitch=0.0, unit=True, w=w, q=q, pris=False)),
+        ('prismatic', np.r_[d, 0, 0, 0], dict(theta=0.0, pitch=0.0, unit=False, w=None, q=None, pris=True)),
+        ('screw', np.r_[v_rev + h * w, w], dict(theta=1.0, pitch=h, unit=True, w=w, q=q, pris=False)),
+        ('zero', np.zeros(6), dict(theta=0.0, pitch=0.0, unit=False, w=None, q=None, pris=True)),
+        ('revolute-multiple', np.r_[v_rev, w] * k, dict(theta=abs(k), pitch=0.0, unit=False, w=None, q=None, pris=False)),
+        ('screw-multiple', np.r_[v_rev + h * w, w] * k, dict(theta=abs(k), pitch=None, unit=False, w=None, q=None, pris=False)),
+        ('prismatic-multiple', np.r_[d, 0, 0, 0] * k, dict(theta=0.0, pitch=0.0, unit=False, w=None, q=None, pris=True)),
+    ]
+    return kinds, dict(h=h, k=k)
+
+
+def accessor_kinds(ctx):
+    """theta / pitch / pole / line / v / w / isprismatic (and the rotation magnitude of exp) for every kind of twist,
+    as a single value and as one element of an object holding all kinds"""
+    rng = ctx.rng
+    for rep in range(ctx.n(6, 200)):
+        kinds, par = twist_kinds(rng)
+        vecs = [x for _, x, _ in kinds]
+        for multi in (False, True):
+            if multi:
+                inp0 = {'twists_hex': [hx(x) for x in vecs], 'form': 'multi'}
+                c0 = Chk(ctx, 'Twist3:all-kinds-sequence', inp0)
+                X = c0.call('construct', lambda: Twist3([x.copy() for x in vecs]))
+                if X is None:
+                    continue
+                th_all = c0.call('theta', lambda: np.asarray(X.theta(), float))
+                pi_all = c0.call('pitch', lambda: np.asarray(X.pitch(), float))
+                v_all = c0.call('v', lambda: np.asarray(X.v, float))
+                w_all = c0.call('w', lambda: np.asarray(X.w, float))
+                with np.errstate(all='ignore'):
+                    po_all = c0.call('pole', lambda: np.asarray(X.pole(), float))
+                ip_all = c0.call('isprismatic', lambda: [bool(b) for b in X.isprismatic])
+                li_all = c0.call('line', lambda: X.line())
+            for i, (kind, x, e) in enumerate(kinds):
+                inp = {'kind': kind, 'twist_hex': hx(x), 'form': 'multi' if multi else 'single', **{n: float(v) for n, v in par.items()}}
+                c = Chk(ctx, f"Twist3:{kind}" + (':in-sequence' if multi else ''), inp)
+                ctx.case(('kinds', kind, multi, tuple(x)))
+                sc = max(1.0, float(np.linalg.norm(x)))
+                if multi:
+                    pick = lambda arr: None if arr is None or len(arr) != len(kinds) else arr[i]
+                    th, pi_, v, w, po, ip = pick(th_all), pick(pi_all), pick(v_all), pick(w_all), pick(po_all), pick(ip_all)
+                    L = None if li_all is None or len(li_all) != len(kinds) else li_all[i]
+                    for nm, val in (('theta', th), ('pitch', pi_), ('v', v), ('w', w), ('isprismatic', ip)):
+                        c.true(nm + '-per-twist', val is not None, 'no per-twist value')
+                else:
+                    S = c.call('construct', lambda: Twist3(x.copy()))
+                    if S is None:
+                        continue
+                    th = c.call('theta', lambda: S.theta())
+                    pi_ = c.call('pitch', lambda: S.pitch())
+                    v, w = c.call('v', lambda: np.array(S.v)), c.call('w', lambda: np.array(S.w))
+                    ip = c.call('isprismatic', lambda: bool(S.isprismatic))
+                    c.true('theta-is-rotation-magnitude', th is not None, 'theta() returned None')
+                    c.true('pitch', pi_ is not None, 'pitch() returned None')
+                    po = L = None
+                    if e['unit']:
+                        po = c.call('pole', lambda: S.pole())
+                        L = c.call('line', lambda: S.line())
+                if th is not None:
+                    c.near('theta-is-rotation-magnitude', th, e['theta'])
+                if pi_ is not None and e['pitch'] is not None:
+                    c.near('pitch', pi_, e['pitch'], sc * sc)
+                if v is not None:
+                    c.near('v', v, x[:3], sc)
+                if w is not None:
+                    c.near('w', w, x[3:], sc)
+                if ip is not None:
+                    c.true('isprismatic', ip == e['pris'], ip)
+                if e['unit']:
+                    if po is not None:
+                        c.near('pole-on-axis', np.cross(np.asarray(po, float) - e['q'], e['w']), np.zeros(3), sc)
+                    if L is not None:
+                        c.near('line-direction', L.w, e['w'])
+                        c.near('line-point-on-axis', np.cross(L.pp - e['q'], e['w']), np.zeros(3), sc)
+                        # the Pluecker coordinates themselves (moment w x q, orthogonal to w; repaired for non-zero pitch
+                        # by fix 2c38430); single-valued and in-sequence forms of a screw share one site
+                        cl = c if kind != 'screw' else Chk(ctx, 'Twist3.line:screw-axis', inp)
+                        cl.near('line-equals-PointDir', L.vec, Plucker.PointDir(e['q'], e['w']).vec, sc)
+                        cl.near('line-pluecker-constraint', float(np.dot(L.v, L.w)), 0.0, sc)
+                # the rotation magnitude of the generated motion is theta() (x |t|), in particular none for prismatic / zero
+                if not multi:
+                    t = float(rng.uniform(0.1, 1.0))
+                    E = c.call('exp', lambda: S.exp(t))
+                    if E is not None:
+                        R = E.A[:3, :3]
+                        ang = math.acos(max(-1.0, min(1.0, (np.trace(R) - 1) / 2)))
+                        want = e['theta'] * t
+                        want = abs((want + PI) % (2 * PI) - PI)
+                        c.near('exp-rotation-angle-is-theta', ang, want, 1.0, 1e-7)
+                        if kind == 'screw':     # axis points slide along the axis by pitch * t
+                            p = e['q'] + 0.7 * e['w']
+                            c.near('screw-axis-point-slides', (E.A @ np.r_[p, 1])[:3], p + par['h'] * t * e['w'], sc)
+    # planar: Twist2 has v / w / isprismatic only
+    for rep in range(ctx.n(4, 100)):
+        q2, d2, k = gen_point(rng, 2), rand_unit(rng, 2), float(rng.choice([-1, 1]) * rng.uniform(0.2, 5))
+        kinds2 = [('revolute', np.r_[q2[1], -q2[0], 1.0], False), ('prismatic', np.r_[d2, 0.0], True), ('zero', np.zeros(3), True),
+                  ('revolute-multiple', np.r_[q2[1], -q2[0], 1.0] * k, False), ('prismatic-multiple', np.r_[d2, 0.0] * k, True)]
+        X = Twist2([x.copy() for _, x, _ in kinds2])
+        for i, (kind, x, pris) in enumerate(kinds2):
+            inp = {'kind': kind, 'twist_hex': hx(x)}
+            ctx.case(('kinds2', kind, tuple(x)))
+            sc = max(1.0, float(np.linalg.norm(x)))
+            c = Chk(ctx, f"Twist2:{kind}", inp)
+            S = c.call('construct', lambda: Twist2(x.copy()))
+            if S is not None:
+                c.near('v', c.call('v', lambda: np.array(S.v)), x[:2], sc)
+                c.near('w', c.call('w', lambda: float(S.w)), x[2], sc)
+                c.true('isprismatic', bool(S.isprismatic) == pris, S.isprismatic)
+            c = Chk(ctx, f"Twist2:{kind}:in-sequence", inp)
+            c.near('v', c.call('v', lambda: np.asarray(X.v)[i]), x[:2], sc)
+            c.near('w', c.call('w', lambda: np.asarray(X.w)[i]), x[2], sc)
+            c.true('isprismatic', c.call('isprismatic', lambda: bool(X.isprismatic[i])) == pris, kind)
+
+
+# ------------------------------------------------------------------------------------------------
+# result ownership: a returned value belongs to the caller.  Histories  call -> scribble over the result -> call again
+# (same receiver, other receiver), compared with the stateless reference; results must not share memory with each other,
+# with the receiver's data, with the arguments, or (hence) with module-level state
+# ------------------------------------------------------------------------------------------------
+def _arrays(x):
+    """every ndarray reachable from a result (ndarray, SMUserList object, list / tuple of those)"""
+    if isinstance(x, np.ndarray):
+        return [x]
+    if hasattr(x, 'data') and isinstance(getattr(x, 'data'), list):
+        return [a for y in x.data for a in _arrays(y)]
+    if isinstance(x, (list, tuple)):
+        return [a for y in x for a in _arrays(y)]
+    return []
+
+
+def _values(x):
+    return [np.array(a, dtype=float, copy=True) for a in _arrays(x)] if _arrays(x) else [np.array(x, dtype=float)]
+
+
+def _same(u, v, tol=1e-12):
+    if len(u) != len(v):
+        return False
+    for a, b in zip(u, v):
+        if a.shape != b.shape or not np.allclose(a, b, rtol=tol, atol=tol, equal_nan=True):
+            return False
+    return True
+
+
+def _rot_about(a, q, th):
+    T = np.eye(4)
+    T[:3, :3] = rot_from_axis_angle(a, th)
+    T[:3, 3] = np.asarray(q, float) - T[:3, :3] @ np.asarray(q, float)
+    return T
+
+
+def ownership(ctx):
+    aA, qA = np.array([1.0, 2.0, 3.0]) * 50, np.array([400.0, -500.0, 600.0])
+    aB, qB = np.array([0.0, -1.0, 0.5]), np.array([1.0, 2.0, 3.0])
+    recv3 = {'A': lambda: Twist3.Revolute(aA, qA), 'B': lambda: Twist3.Revolute(aB, qB), 'P': lambda: Twist3.Prismatic([0.0, 3.0, 4.0])}
+    recv2 = {'A': lambda: Twist2.Revolute([4.0, -5.0]), 'B': lambda: Twist2.Revolute([1.0, 2.0]), 'P': lambda: Twist2.Prismatic([3.0, 4.0])}
+    entries = []      # (name, receivers, fn(receiver) -> result, view accessor?, independent reference fn(receiver name) or None)
+
+    def exp_ref3(th_list):
+        def ref(rn):
+            out = []
+            for th in th_list:
+                if rn == 'P':
+                    T = np.eye(4)
+                    T[:3, 3] = th * np.array([0.0, 0.6, 0.8])
+                else:
+                    T = _rot_about(aA if rn == 'A' else aB, qA if rn == 'A' else qB, th)
+                out.append(T)
+            return out
+        return ref
+    for nm, arg, ths in (('exp(0)', 0, [0.0]), ('exp(0.0)', 0.0, [0.0]), ('exp(np.float64(0))', np.float64(0.0), [0.0]),
+                         ('exp(1e-17)', 1e-17, [0.0]), ('exp(0.3)', 0.3, [0.3]), ('exp(-pi/2)', -PI / 2, [-PI / 2]),
+                         ('exp([0,0.3])', [0, 0.3], [0.0, 0.3]), ('exp([0,0])', [0.0, 0.0], [0.0, 0.0]),
+                         ('exp(array([0,0,0.3]))', np.array([0.0, 0.0, 0.3]), [0.0, 0.0, 0.3])):
+        entries.append(('Twist3.' + nm, recv3, (lambda arg: lambda S: S.exp(arg))(arg), False, exp_ref3(ths)))
+    entries += [
+        ('Twist3.exp(0,deg)', recv3, lambda S: S.exp(0, 'deg'), False, exp_ref3([0.0])),
+        ('Twist3.(S*0).exp()', recv3, lambda S: (S * 0).exp(), False, exp_ref3([0.0])),
+        ('Twist3.(0*S).exp()', recv3, lambda S: (0 * S).exp(), False, exp_ref3([0.0])),
+        ('Twist3.(S*0.3).exp()', recv3, lambda S: (S * 0.3).exp(), False, exp_ref3([0.3])),
+        ('Twist3.(S*0).SE3()', recv3, lambda S: (S * 0).SE3(), False, exp_ref3([0.0])),
+        ('Twist3.SE3()', recv3, lambda S: S.SE3(), False, exp_ref3([1.0])),
+        ('base.trexp(S*0)', recv3, lambda S: base.trexp(S.S * 0), False, exp_ref3([0.0])),
+        ('base.trexp(S,0)', recv3, lambda S: base.trexp(S.S, 0), False, exp_ref3([0.0])),
+        ('base.trexp(S,0.3)', recv3, lambda S: base.trexp(S.S, 0.3), False, exp_ref3([0.3])),
+        ('base.trexp(se3*0)', recv3, lambda S: base.trexp(S.se3() * 0), False, exp_ref3([0.0])),
+        ('SE3.Exp(S*0)', recv3, lambda S: SE3.Exp(S.S * 0), False, exp_ref3([0.0])),
+        ('Twist3.sequence.exp(0)', {'A': lambda: Twist3([Twist3.Revolute(aA, qA).S, Twist3.Revolute(aB, qB).S]),
+                                    'B': lambda: Twist3([Twist3.Revolute(aB, qB).S, Twist3.Revolute(aB, qB).S])},
+         lambda X: X.exp(0), False, lambda rn: [np.eye(4), np.eye(4)]),
+        ('Twist3.line()', recv3, lambda S: S.line(), False, None),
+        ('Twist3.pole()', {k: recv3[k] for k in 'AB'}, lambda S: S.pole(), False, None),
+        ('Twist3.se3()', recv3, lambda S: S.se3(), False, None),
+        ('Twist3.inv()', recv3, lambda S: S.inv(), False, None),
+        ('Twist3.unit', recv3, lambda S: S.unit, False, None),
+        ('Twist3.S*2', recv3, lambda S: S * 2, False, None),
+        ('Twist3.2*S', recv3, lambda S: 2 * S, False, None),
+        ('Twist3.S*1', recv3, lambda S: S * 1, False, None),
+        ('Twist3.Ad()', recv3, lambda S: S.Ad(), False, None),
+        ('Twist3.ad()', recv3, lambda S: S.ad(), False, None),
+        ('Twist3.v', recv3, lambda S: S.v, True, None),
+        ('Twist3.w', recv3, lambda S: S.w, True, None),
+        ('Twist3.S', recv3, lambda S: S.S, True, None),
+        ('Twist3.sequence.v', {'A': lambda: Twist3([Twist3.Revolute(aA, qA).S, Twist3.Revolute(aB, qB).S]),
+                               'B': lambda: Twist3([Twist3.Revolute(aB, qB).S, Twist3.Revolute(aB, qB).S])}, lambda X: X.v, False, None),
+        ('Twist3.sequence.w', {'A': lambda: Twist3([Twist3.Revolute(aA, qA).S, Twist3.Revolute(aB, qB).S]),
+                               'B': lambda: Twist3([Twist3.Revolute(aB, qB).S, Twist3.Revolute(aB, qB).S])}, lambda X: X.w, False, None),
+        ('Twist3.Rx(0)', {'A': lambda: 0.0, 'B': lambda: 0.3}, lambda t: Twist3.Rx(t), False, None),
+        ('Twist3.Rx(0).exp()', {'A': lambda: 0.0, 'B': lambda: 0.0}, lambda t: Twist3.Rx(t).exp(), False, lambda rn: [np.eye(4)]),
+    ]
+
+    def exp_ref2(th_list):
+        def ref(rn):
+            out = []
+            for th in th_list:
+                T = np.eye(3)
+                if rn == 'P':
+                    T[:2, 2] = th * np.array([0.6, 0.8])
+                else:
+                    q = np.array([4.0, -5.0]) if rn == 'A' else np.array([1.0, 2.0])
+                    T[:2, :2] = rot2(th)
+                    T[:2, 2] = q - rot2(th) @ q
+                out.append(T)
+            return out
+        return ref
+    for nm, arg, ths in (('exp(0)', 0, [0.0]), ('exp(0.0)', 0.0, [0.0]), ('exp(1e-17)', 1e-17, [0.0]), ('exp(0.3)', 0.3, [0.3]),
+                         ('exp([0,0.3])', [0, 0.3], [0.0, 0.3]), ('exp([0,0])', [0.0, 0.0], [0.0, 0.0])):
+        entries.append(('Twist2.' + nm, recv2, (lambda arg: lambda S: S.exp(arg))(arg), False, exp_ref2(ths)))
+    entries += [
+        ('Twist2.(S*0).exp()', recv2, lambda S: (S * 0).exp(), False, exp_ref2([0.0])),
+        ('Twist2.(0*S).exp()', recv2, lambda S: (0 * S).exp(), False, exp_ref2([0.0])),
+        ('Twist2.(S*0).SE2()', recv2, lambda S: (S * 0).SE2(), False, exp_ref2([0.0])),
+        ('Twist2.SE2()', recv2, lambda S: S.SE2(), False, exp_ref2([1.0])),
+        ('base.trexp2(S*0)', recv2, lambda S: base.trexp2(S.S * 0), False, exp_ref2([0.0])),
+        ('base.trexp2(S,0.3)', recv2, lambda S: base.trexp2(S.S, 0.3), False, exp_ref2([0.3])),
+        ('Twist2.se2()', recv2, lambda S: S.se2(), False, None),
+        ('Twist2.inv()', recv2, lambda S: S.inv(), False, None),
+        ('Twist2.unit', recv2, lambda S: S.unit, False, None),
+        ('Twist2.S*2', recv2, lambda S: S * 2, False, None),
+        ('Twist2.2*S', recv2, lambda S: 2 * S, False, None),
+        ('Twist2.v', recv2, lambda S: S.v, True, None),
+        ('Twist2.S', recv2, lambda S: S.S, True, None),
+    ]
+    # constructors: the result must not alias the caller's argument arrays
+    ctor = [('Twist3.Revolute(a,q)', lambda a, q: Twist3.Revolute(a, q), [np.array([0.0, 0.0, 1.0]), np.array([1.0, 2.0, 3.0])]),
+            ('Twist3.Prismatic(a)', lambda a: Twist3.Prismatic(a), [np.array([0.0, 0.0, 1.0])]),
+            ('Twist2.Revolute(q)', lambda q: Twist2.Revolute(q), [np.array([1.0, 2.0])]),
+            ('Twist2.Prismatic(a)', lambda a: Twist2.Prismatic(a), [np.array([1.0, 0.0])])]
+    for name, f, args in ctor:
+        c = Chk(ctx, name, {'entry': name})
+        ctx.case(('ownership-ctor', name))
+        R = c.call('ownership', lambda: f(*args))
+        if R is None:
+            continue
+        before = _values(R)
+        c.true('ownership:result-shares-memory-with-argument', not any(np.shares_memory(b, a) for b in _arrays(R) for a in args), name)
+        for a in args:
+            a[...] = 77.5
+        c.true('ownership:result-changed-by-editing-the-argument', _same(_values(R), before), name)
+
+    SCRIBBLE = 1234.5
+    for name, recvs, fn, is_view, ref in entries:
+        inp = {'entry': name}
+        c = Chk(ctx, name, inp)
+        ctx.case(('ownership', name))
+        names = list(recvs)
+        # stateless references first (before anything is scribbled for this entry)
+        refs = {}
+        ok = True
+        for rn in names:
+            r = c.call('ownership', lambda: fn(recvs[rn]()))
+            if r is None:
+                ok = False
+                break
+            refs[rn] = _values(r)
+            if ref is not None:
+                c.true('ownership:first-call-value', _same(refs[rn], [np.asarray(x, float) for x in ref(rn)], 1e-9 * 1e3), f"receiver {rn}")
+                refs[rn] = [np.asarray(x, float) for x in ref(rn)]
+        if not ok:
+            continue
+        rA = recvs[names[0]]()
+        own = [np.array(a, copy=True) for a in _arrays(rA)]
+        r1 = c.call('ownership', lambda: fn(rA))
+        r2 = c.call('ownership', lambda: fn(rA))
+        if r1 is None or r2 is None:
+            continue
+        b1, b2 = _arrays(r1), _arrays(r2)
+        if not is_view:      # (a view accessor returns the receiver's own storage each time, by design)
+            c.true('ownership:two-results-share-memory',
+                   not any(np.shares_memory(x, y) for x in b1 for y in b2), 'two calls return overlapping arrays')
+        else:
+            other = recvs[names[1]]()
+            c.true('ownership:view-shares-memory-with-another-object',
+                   not any(np.shares_memory(x, y) for x in b1 for y in _arrays(fn(other)) + _arrays(other)), name)
+        c.true('ownership:elements-of-one-result-share-memory',
+               not any(np.shares_memory(x, y) for i, x in enumerate(b1) for y in b1[i + 1:]), 'one result holds overlapping arrays')
+        shares_recv = any(np.shares_memory(x, y) for x in b1 for y in _arrays(rA))
+        if not is_view:
+            c.true('ownership:result-shares-memory-with-receiver', not shares_recv, 'result overlaps the receiver data')
+        # scribble over the first result
+        for x in b1:
+            if x.flags.writeable:
+                x[...] = SCRIBBLE
+        if not is_view:
+            c.true('ownership:receiver-changed-by-editing-the-result', _same([np.array(a) for a in _arrays(rA)], own), name)
+            c.true('ownership:earlier-result-changed-by-editing-another', _same(_values(r2), refs[names[0]], 1e-9 * 1e3), name)
+            r3 = c.call('ownership', lambda: fn(rA))
+            if r3 is not None:
+                c.true('ownership:later-call-same-receiver-changed', _same(_values(r3), refs[names[0]], 1e-9 * 1e3),
+                       'after editing an earlier result in place the same call returns another value')
+        # a fresh receiver of the same twist, and different receivers, are never affected (also for view accessors)
+        for rn in names:
+            r4 = c.call('ownership', lambda: fn(recvs[rn]()))
+            if r4 is not None:
+                c.true('ownership:later-call-fresh-receiver-changed', _same(_values(r4), refs[rn], 1e-9 * 1e3),
+                       f"after editing an earlier result in place, a fresh receiver {rn} returns another value")
+
+
 def oracle(ctx):
     rng = ctx.rng
     N = ctx.n(500, 40000)
@@ -657,6 +987,8 @@ def oracle(ctx):
     named_axis(ctx)
     multi_scalar(ctx)
     multi_twist(ctx)
+    accessor_kinds(ctx)
+    ownership(ctx)       # last: on a tree that shares state this poisons the process
     ctx.sample({'kind': 'oracle', 'case': 'Twist3.Revolute(a,q).exp(theta)', 'a': list(map(float, a)), 'q': list(map(float, q)), 'theta': th, 'unit': unit, 'form': form})
 
 
@@ -711,6 +1043,10 @@ def replay(ctx, path):
         named_axis(ctx)
     elif 'scalar-multi' in key:
         multi_scalar(ctx)
+    elif ':ownership' in key:
+        ownership(ctx)
+    elif 'kind' in r:
+        accessor_kinds(ctx)
     else:
         run(ctx)
     keys = {f.key for f in ctx.findings} | {'obligation:' + o.name for o in ctx.obligations if o.ok is False}
